@@ -410,8 +410,21 @@ class Recon:
                         assigned.add(local)
         body_env = dict(env)
         if is_for:
-            for tn in tnames:
-                body_env[tn] = ('loopvar', tn, it)
+            tgt = s.target
+            if isinstance(tgt, (ast.Tuple, ast.List)) and len(tgt.elts) == 2 and all(isinstance(e_, ast.Name) for e_ in tgt.elts) \
+                    and it[0] == 'call' and it[1] == 'enumerate' and len(it[2]) == 1 and not it[3]:
+                # `for i, x in enumerate(xs)` is `for i in range(len(xs)): x = xs[i]`
+                xs = it[2][0]
+                i_ = ('loopvar', tgt.elts[0].id, ('call', 'range', (('call', 'len', (xs,), (), None),), (), None))
+                body_env[tgt.elts[0].id] = i_
+                body_env[tgt.elts[1].id] = mkidx(xs, i_)
+            elif isinstance(tgt, (ast.Tuple, ast.List)) and all(isinstance(e_, ast.Name) for e_ in tgt.elts):
+                # the position in the target tuple, not the name, tells the variables of one loop apart
+                for k_, e_ in enumerate(tgt.elts):
+                    body_env[e_.id] = ('loopvar', e_.id, ('proj', k_, it))
+            else:
+                for tn in tnames:
+                    body_env[tn] = ('loopvar', tn, it)
         for name in assigned - tnames:
             if name in env:
                 body_env[name] = ('carried', name, env[name])
@@ -427,7 +440,12 @@ class Recon:
                     continue
             body_env[name] = ('carried', name, pre)
         tag = ('inloop', s.lineno)
-        self.events.append(Event('loop_enter', conds, (it, tuple(sorted(tnames))), s))
+        lvs = []
+        if is_for:
+            for m in ast.walk(s.target):
+                if isinstance(m, ast.Name) and isinstance(body_env.get(m.id), tuple) and body_env[m.id][0] == 'loopvar':
+                    lvs.append((body_env[m.id][1], body_env[m.id][2]))
+        self.events.append(Event('loop_enter', conds, (it, tuple(sorted(tnames)), tuple(lvs)), s))
         if not is_for:
             c = self.ex(s.test, body_env)
             self.events.append(Event('while_test', conds, (c,), s))
